@@ -3,7 +3,7 @@ import os, subprocess, fcntl, sys, time, hashlib, shlex
 
 VERIF = os.path.dirname(os.path.dirname(os.path.abspath(__file__)))
 REPO = os.environ.get('VERIF_REPO', '/repo')
-BUILD = os.path.join(VERIF, '.build')
+BUILD = os.environ.get('VERIF_BUILD') or os.path.join(VERIF, '.build')
 GUARD = 'PARSEC_VERIF'
 
 SAN = '-fsanitize=address;-fsanitize=undefined;-fno-omit-frame-pointer'
